@@ -22,6 +22,9 @@ def run_sem(ctx, lines, cap=0, sub="sem", env=None):
         ctx.broken_ties.append((f"model driver {sub}", p.stderr[-1000:]))
     return res
 
+DEFAULT_TYPING_CODE = "untyped-constant-in-interface"
+
+
 def gocheck(ctx, lines):
     p = vlib.srun(["bash", "-c", f"ulimit -s unlimited; exec {vlib.MODEL} gocheck"], input="\n".join(lines) + "\n",
                        stdout=subprocess.PIPE, stderr=subprocess.PIPE, text=True, timeout=3000)
@@ -29,7 +32,21 @@ def gocheck(ctx, lines):
     for l in p.stdout.split("\n"):
         f = l.split("\t")
         if len(f) >= 2:
-            res[f[0]] = (f[1], f[2] if len(f) > 2 else "")
+            status, detail = f[1], f[2] if len(f) > 2 else ""
+            dflt = ""
+            if status == "err":
+                # `untyped-constant-in-interface` is not an error of Go (the file compiles): it marks a place where real
+                # Go's behaviour differs from the annotated AST / Go.Sem (default typing of untyped constants).  It is a
+                # behavioural finding of C01 (oracle go-default-typing), so it is split off here: for every consumer
+                # (C02's "invalid Go", the Go-stage skips of C01 / C09 / GOCOMP) the file is judged without it.
+                errs = [e for e in detail.split(" ;; ") if e]
+                d = [e for e in errs if e.split("|", 1)[0] == DEFAULT_TYPING_CODE]
+                rest = [e for e in errs if e.split("|", 1)[0] != DEFAULT_TYPING_CODE]
+                dflt = " ;; ".join(d)
+                detail = " ;; ".join(rest)
+                if not rest:
+                    status = "ok"
+            res[f[0]] = (status, detail, dflt)
     if p.returncode != 0:
         ctx.broken_ties.append(("model driver gocheck", p.stderr[-1000:]))
     return res
@@ -217,7 +234,18 @@ def run(ctx):
                 ctx.report({"oracle": "go-printer", "kind": pp[0]},
                            "the printed Go text does not parse back to the Go AST it was printed from",
                            {"id": pid, "src": d.get("src"), "detail": pp[1][:600]})
-        invalid_go = gc.get(pid, ("ok",))[0] == "err"
+        gcr = gc.get(pid, ("ok", "", ""))
+        if len(gcr) > 2 and gcr[2]:
+            # a numeric literal stored at an interface type takes Go's DEFAULT type (`int`, `float64`), which neither the
+            # annotated Go AST nor Go.Sem shows: the emitted Go does not behave like the source (a later assertion to the
+            # annotated type panics)
+            e0 = gcr[2].split(" ;; ")[0]
+            parts = e0.split("|", 2)
+            ctx.report({"oracle": "go-default-typing", "where": (parts[2] if len(parts) > 2 else "").split(" ")[0]},
+                       "a numeric literal is stored at an interface type as an untyped constant: real Go gives it the default type "
+                       "(int / float64), not the type of the source literal",
+                       {"id": pid, "src": d.get("src"), "error": e0, "function": parts[1] if len(parts) > 1 else ""})
+        invalid_go = gcr[0] == "err"
         if invalid_go:
             # not valid Go: whether it is accepted is C02's question; it has no Go behaviour to
             # compare, but everything before the Go back end still has
